@@ -123,7 +123,7 @@ func runPsi(c *fw.Ctx) {
 		b.flush(cs)
 	})
 	var dir []nxPoint
-	dir = append(dir, nxPoint{8, 38.7}, nxPoint{117, 0.10497698653489351}, nxPoint{75, -0.5}, nxPoint{75, -306.5})
+	dir = append(dir, nxPoint{8, 38.7}, nxPoint{117, 0.10497698653489351}, nxPoint{75, -0.5}, nxPoint{75, -306.5}, nxPoint{24, 3378939292084.946})
 	for _, n := range polyN(c.Thorough()) {
 		for _, x := range polyX(n) {
 			dir = append(dir, nxPoint{n, x})
